@@ -63,7 +63,7 @@ def input_case(draw, sub="sample"):
             "glob": {"no_index": True}, "o": o, "f": f, "combos": combos}
 
 
-def run_combo(sc, combo):
+def run_combo(sc, combo, start_method=None):
     """Run one combination; returns (args, [records R1, records R2 or None], first bytes, raw files)."""
     inc, inlay, outc, outlay, ext, cores, infmt = combo[:7]
     level = combo[7] if len(combo) > 7 else None
@@ -107,7 +107,13 @@ def run_combo(sc, combo):
             interleaved = True
     if interleaved:
         args.append("--interleaved")
-    r = cli.run(args + inputs, files)
+    if start_method:
+        r = cli.run_subprocess(args + inputs, files, timeout=180, start_method=start_method)
+        if r.exit != 0:
+            raise Violation(f"run with start method {start_method} failed for combination {combo}: {args + inputs}: "
+                            f"exit={r.exit} {r.stderr[-600:]}", tag="run-failed")
+    else:
+        r = cli.run(args + inputs, files)
     if r.exit != 0:
         raise Violation(f"run failed for combination {combo}: {args + inputs}: exit={r.exit} {r.errors} {r.tb}",
                         observed={"exit": r.exit, "errors": r.errors}, tag="run-failed")
@@ -223,6 +229,37 @@ def sweep_product(spec):
 
 
 # ------------------------------------------------------------------- several outputs asking for different formats
+# ----------------------------------------------------------------- other multiprocessing start methods
+@st.composite
+def startmethod_case(draw):
+    sc = draw(input_case("startmethod"))
+    sc["combos"] = sc["combos"][:2]
+    for c in sc["combos"]:
+        c[5] = 2  # several cores: the pipeline and its writers are pickled for the workers
+    sc["method"] = draw(st.sampled_from(["spawn", "forkserver"]))
+    return sc
+
+
+def check_startmethod(sc, ctx):
+    """'spawn' (default on macOS and Windows) and 'forkserver' pickle the pipeline for the workers instead of
+    forking it: format, container and records must be what the one-core run gives."""
+    ctx.label("start-method:" + sc["method"])
+    for combo in sc["combos"]:
+        inc, inlay, outc, outlay, ext, cores, infmt = combo[:7]
+        if infmt == "fasta" and ext in (".fastq", ".fq"):
+            ctx.excluded += 1
+            continue
+        args1, ref, fmts1 = run_combo(sc, combo[:5] + [1] + combo[6:])
+        args2, got, fmts2 = run_combo(sc, combo, start_method=sc["method"])
+        if fmts1 != fmts2:
+            raise Violation(f"start method {sc['method']}: output format {fmts2} with 2 cores, {fmts1} with one core "
+                            f"({args2})", observed=fmts2, expected=fmts1, tag="format")
+        if got != ref:
+            raise Violation(f"start method {sc['method']}: records differ from the one-core run ({args2})",
+                            observed=[x[:3] for x in got], expected=[x[:3] for x in ref])
+        ctx.nontrivial_case({"args": args2, "method": sc["method"]})
+
+
 @st.composite
 def mixed_case(draw):
     sc = draw(input_case("mixed"))
@@ -313,6 +350,7 @@ def check_mixed(sc, ctx):
 
 SUBS = {
     "mixed": Sub(strategy=lambda tier: mixed_case(), check=check_mixed),
+    "startmethod": Sub(strategy=lambda tier: startmethod_case(), check=check_startmethod),
     "sample": Sub(strategy=lambda tier: input_case("sample"), check=check_sample),
     "product": Sub(check=check_sample, sweep=sweep_product),
 }
@@ -322,7 +360,9 @@ def plan(tier):
     if tier == "quick":
         return [{"sub": "sample", "kind": "hyp", "examples": 60} for _ in range(7)] + \
                [{"sub": "mixed", "kind": "hyp", "examples": 150} for _ in range(3)] + \
+               [{"sub": "startmethod", "kind": "hyp", "examples": 8} for _ in range(2)] + \
                [{"sub": "product", "kind": "sweep", "input": i % 3, "part": i, "of": 8, "limit": 60} for i in range(8)]
     return [{"sub": "sample", "kind": "hyp", "examples": 1500} for _ in range(6)] + \
            [{"sub": "mixed", "kind": "hyp", "examples": 4000} for _ in range(3)] + \
+           [{"sub": "startmethod", "kind": "hyp", "examples": 150} for _ in range(2)] + \
            [{"sub": "product", "kind": "sweep", "input": i % 3, "part": i // 3, "of": 4} for i in range(12)]
